@@ -9,6 +9,7 @@ import (
 	"github.com/Fantom-foundation/lachesis-base/hash"
 	"github.com/Fantom-foundation/lachesis-base/inter/dag/tdag"
 	"github.com/Fantom-foundation/lachesis-base/inter/idx"
+	"github.com/Fantom-foundation/lachesis-base/inter/pos"
 )
 
 // Case format (one line, groups separated by ";"):
@@ -19,7 +20,8 @@ import (
 //   ; P i | X i f | B ep cr seq lam p.. | b ep cr seq lam p.. | R | RESET ep id w .. | M i | G f
 //   ; r                                    restart that re-uses the application's vecfc index object (R creates a fresh one)
 //   ; L mode n [flags]                     (header group) ApplyEvent listener policy: 0 every block, 1 from block n on, 2 odd blocks,
-//                                          3 no BeginBlock callback at all; flags 1: nil EndBlock on non-sealing blocks, 2: one-byte vector caches
+//                                          3 no BeginBlock callback at all; flags 1: nil EndBlock on non-sealing blocks, 2: one-byte vector caches,
+//                                          4: index over a custom vecengine.Engine with Callbacks.OnDropNotFlushed nil (vector caches off)
 //   ; W                                    Store.GetValidators (ids and weights in canonical order)
 //   ; Q i j                                ForklessCause(event i, event j) asked of the instance's index
 //   ; Y n ep cr seq lam frame p..          Process of an inline "ghost" event (id tail n) that is defined nowhere else
@@ -235,11 +237,27 @@ func Exec(sc *Scenario, stat func(string)) []string {
 		return []string{"invalid"}
 	}
 	out := execOne(sc, sc.Groups, stat)
+	if len(out) == 1 && out[0] == "invalid" {
+		return out
+	}
 	if alt := AltGroups(sc.Mix, sc.Groups); alt != nil {
 		out = append(out, "||")
 		out = append(out, execOne(sc, alt, func(string) {})...)
 	}
 	return out
+}
+
+func sameVals(a, b *pos.Validators) bool {
+	if a.Len() != b.Len() {
+		return false
+	}
+	ia, ib := a.SortedIDs(), b.SortedIDs()
+	for i := range ia {
+		if ia[i] != ib[i] || a.Get(ia[i]) != b.Get(ib[i]) {
+			return false
+		}
+	}
+	return true
 }
 
 func execOne(sc *Scenario, groups [][]string, stat func(string)) []string {
@@ -255,12 +273,38 @@ func execOne(sc *Scenario, groups [][]string, stat func(string)) []string {
 		out = append(out, toks...)
 	}
 	lastKind, lastBlocks := "", 0
-	for _, g := range groups {
+	markerSeen := false
+	for gi, g := range groups {
 		switch g[0] {
 		case "E":
 			r.define(g)
 			continue
 		case "ALTFROM":
+			// the marker claims: "the instance has just switched to this epoch with these validators" (by a seal), or
+			// the next op is the very Reset the reference instance starts with.  A case where neither holds (only met
+			// while shrinking: the sealing rule or the switching op was removed) is not a C09 scenario.
+			if !markerSeen {
+				markerSeen = true
+				nextIsReset := false
+				for _, ng := range groups[gi+1:] {
+					if ng[0] == "E" {
+						continue
+					}
+					nextIsReset = ng[0] == "RESET" && strings.Join(ng[1:], " ") == strings.Join(g[1:], " ")
+					break
+				}
+				ok := !inst.Dead && len(g) >= 2
+				if ok && !nextIsReset {
+					inst.guarded(func() string {
+						ok = inst.Epoch() == pu(g[1]) && inst.Ldf() == 0 && len(inst.proc) == 0 &&
+							sameVals(inst.Validators(), BuildVals(parseVW(g[2:])))
+						return ""
+					})
+				}
+				if !ok {
+					return []string{"invalid"}
+				}
+			}
 			continue
 		}
 		curBlocks := 0
